@@ -28,6 +28,10 @@ Definition Z0 (s : sm QIops) : QI := fz (centre (st s)).
 Definition Fk (k : Z) (s : sm QIops) : QI := fp (getZ t0 (st s) k).
 Definition Zk (k : Z) (s : sm QIops) : QI := fz (getZ t0 (st s) k).
 Definition lin (a b : QI) (s : sm QIops) : QI := qi_add (qi_mul a (F0 s)) (qi_mul b (Z0 s)).
+Notation QTuple := (@QTuple QIops).
+Definition one (f : sm QIops -> QI) (s : sm QIops) : list QI := [f s].
+Definition Farr (s : sm QIops) : list QI := map fp (st s).
+Definition Zarr (s : sm QIops) : list QI := map fz (st s).
 Definition qabs (x : Qc) : Qc := if Qle_bool 0 x then x else (- x)%Qc.
 Definition qi_close (tol : Qc) (x y : QI) : bool :=
   let m := (1 + qabs (fst y) + qabs (snd y))%Qc in
@@ -55,11 +59,25 @@ def phasor_exact(ph):
 
 
 # ------------------------------------------------------------------ generator (sim stream)
-def gen_probe(rng, B, allow_phase=True, in_seq=True):
+def gen_probe(rng, B, allow_phase=True, in_seq=True, allow_tuple=True):
     r = rng.random()
     if in_seq and r < 0.2:
         return {"type": "ADC", "q": "F0", "phase": None, "weights": None, "reduce": None}
-    qk = rng.choice(["F0", "F0", "Z0", "lin", "Fk", "Zk"])
+    qk = rng.choice(["F0", "F0", "Z0", "lin", "Fk", "Zk", "tuple", "tuple"]) if allow_tuple else \
+        rng.choice(["F0", "F0", "Z0", "lin", "Fk", "Zk"])
+    if qk == "tuple":
+        # tuple / list of state attributes (views of the state array): Probe("(F0, Z0)"), Probe(lambda sm: (sm.F, sm.Z))
+        if rng.random() < 0.3:
+            comps = [rng.choice(["F", "Z"]) for _ in range(rng.choice([1, 2, 2, 3]))]
+        else:
+            comps = []
+            for _ in range(rng.choice([1, 2, 2, 3])):
+                c = rng.choice(["F0", "Z0", "F0", "Z0", "lin", "Fk", "Zk"])
+                comps.append(("lin", prog.cdy(rng, nz=True), prog.cdy(rng)) if c == "lin" else
+                             (c, rng.choice([1, -1, 0])) if c in ("Fk", "Zk") else c)
+        q = ("tuple", comps, rng.choice(["tuple", "list"]))
+        expressible = all(isinstance(c, str) or c[0] == "lin" for c in comps)
+        return {"type": rng.choice(["expr", "call"]) if expressible else "call", "q": q, "phase": None, "weights": None, "reduce": None}
     if qk == "lin":
         q = ("lin", prog.cdy(rng, nz=True), prog.cdy(rng))
     elif qk in ("Fk", "Zk"):
@@ -95,7 +113,7 @@ def gen_probe(rng, B, allow_phase=True, in_seq=True):
     return {"type": "call", "q": q, "phase": None, "weights": None, "reduce": None}
 
 
-def gen_override(rng, B):
+def gen_override(rng, B, allow_tuple=True):
     r = rng.random()
     if r < 0.35:
         return None
@@ -106,7 +124,7 @@ def gen_override(rng, B):
             return None
         if k < 0.45:
             return rng.choice(["F0", "Z0"])                  # plain string -> Probe(string)
-        p = gen_probe(rng, B, in_seq=False)
+        p = gen_probe(rng, B, in_seq=False, allow_tuple=allow_tuple)
         if p["type"] == "expr" and rng.random() < 0.5:
             p = dict(p, type="str")                         # expression string, wrapped by simulate()
         if p["type"] == "call" and rng.random() < 0.5:
@@ -185,7 +203,9 @@ def gen_sim_case(rng, quick=True):
         items.append({"k": "probe", "id": nid, "probe": gen_probe(rng, B), "dur": 0.0})
     case["items"] = items
     case["tree"] = gen_tree(rng, list(range(len(items))))     # groups may have a negative total (Offset members)
-    case["override"] = gen_override(rng, B)
+    # an array-valued phase compensation cannot be applied to a stacked tuple of arrays
+    list_phase = any(it["k"] == "probe" and isinstance(it["probe"]["phase"], list) for it in items)
+    case["override"] = gen_override(rng, B, allow_tuple=not list_phase)
     case["asarray"] = rng.random() < 0.4
     return case
 
@@ -210,6 +230,14 @@ def gen_tree(rng, idx, depth=0, in_multi=False):
 
 # ------------------------------------------------------------------ implementation driver
 def quantity_fn(q):
+    if q == "F":
+        return lambda sm: sm.F
+    if q == "Z":
+        return lambda sm: sm.Z
+    if q[0] == "tuple":
+        fs = [quantity_fn(c) for c in q[1]]
+        ctor = tuple if q[2] == "tuple" else list
+        return lambda sm: ctor(f(sm) for f in fs)
     if q == "F0":
         return lambda sm: sm.F0
     if q == "Z0":
@@ -230,6 +258,9 @@ def quantity_fn(q):
 def expr_of(q):
     if isinstance(q, str):
         return q
+    if q[0] == "tuple":
+        inner = ", ".join(expr_of(c) for c in q[1])
+        return "[%s]" % inner if q[2] == "list" else "(%s,)" % inner
     return "(%r)*F0 + (%r)*Z0" % (q[1], q[2])
 
 
@@ -355,7 +386,7 @@ def run_sim_impl(case):
     if case["asarray"]:
         # asarray=True on the same objects: the stacked arrays must hold the same numbers
         series = [values] if nov == 1 else list(values)
-        if all(len({np.shape(v) for v in s}) == 1 for s in series):
+        if all(len({np.shape(v) for v in s}) == 1 and not any(isinstance(v, (tuple, list)) for v in s) for s in series):
             t2, v2 = epg.simulate(seq, init=sm, adc_time=True, probe=ov, asarray=True)
             s2 = [v2] if nov == 1 else list(v2)
             same = np.array_equal(np.asarray(t2), np.asarray(times)) and len(s2) == len(series) and all(
@@ -366,12 +397,19 @@ def run_sim_impl(case):
     mdur = [m.duration for m in multis]
     times = [float(t) for t in np.asarray(times).tolist()]
     if nov == 1:
-        vals = ("single", [np.ravel(np.asarray(v)).tolist() for v in values])
+        vals = ("single", [flatval(v) for v in values])
     else:
         if len(values) != nov:
             raise AssertionError("simulate returned %d series for %d probes" % (len(values), nov))
-        vals = ("multi", [[np.ravel(np.asarray(v)).tolist() for v in series] for series in values])
+        vals = ("multi", [[flatval(v) for v in series] for series in values])
     return {"times": times, "adc": [float(t) for t in adc], "mdur": [float(x) for x in mdur], "vals": vals}
+
+
+def flatval(v):
+    """recorded entry as a flat list of numbers: a tuple / list of arrays component after component"""
+    if isinstance(v, (tuple, list)):
+        return [z for c in v for z in np.ravel(np.asarray(c)).tolist()]
+    return np.ravel(np.asarray(v)).tolist()
 
 
 # ------------------------------------------------------------------ Gallina printers
@@ -384,6 +422,16 @@ def c_quantity(q):
         return "QF0"
     if q == "Z0":
         return "QZ0"
+    if q[0] == "tuple":
+        def comp(c):
+            if c in ("F", "Z"):
+                return c + "arr"
+            if c in ("F0", "Z0"):
+                return "(one %s)" % c
+            if c[0] == "lin":
+                return "(one (lin %s %s))" % (core.qi(c[1]), core.qi(c[2]))
+            return "(one (%s %s))" % (c[0], core.zlit(c[1]))
+        return "(QTuple %s)" % core.clist([comp(c) for c in q[1]])
     if q[0] == "lin":
         return "(QFun (lin %s %s))" % (core.qi(q[1]), core.qi(q[2]))
     return "(QFun (%s %s))" % (q[0], core.zlit(q[1]))
@@ -488,7 +536,8 @@ def spec_oracle(case):
         row = []
         for o in (ovl or [None]):
             p = it["probe"] if o is None else ({"type": "expr", "q": o, "phase": None, "weights": None, "reduce": None} if isinstance(o, str) else o)
-            arr = np.asarray(quantity_fn(p["q"])(sm))
+            arr = quantity_fn(p["q"])(sm)
+            arr = np.asarray([np.asarray(c) for c in arr]) if isinstance(arr, (tuple, list)) else np.asarray(arr)
             if p["weights"] is not None:
                 arr = arr * np.asarray(p["weights"])
             red = p["reduce"]
@@ -553,10 +602,16 @@ def run_sim_stream(ctx, n):
         stats["tolerance_cases"] += needs_tolerance(case)
         stats["nested"] += any(not isinstance(nd, int) for nd in case["tree"])
         stats["probe_occurrences"] += nocc
-        for it in case["items"]:
+        for k, it in enumerate(case["items"]):
             if it["k"] == "probe":
                 t = it["probe"]["type"]
                 stats["probe_types"][t] = stats["probe_types"].get(t, 0) + 1
+                if isinstance(it["probe"]["q"], tuple) and it["probe"]["q"][0] == "tuple":
+                    stats["tuple_probes"] = stats.get("tuple_probes", 0) + 1
+                    if any(x["k"] == "op" and x["op"]["op"] not in ("wait",) for x in case["items"][k + 1:]):
+                        stats["tuple_probes_before_further_operators"] = stats.get("tuple_probes_before_further_operators", 0) + 1
+        stats["tuple_overrides"] = stats.get("tuple_overrides", 0) + sum(
+            1 for o in override_list(case["override"]) if isinstance(o, dict) and isinstance(o["q"], tuple) and o["q"][0] == "tuple")
     verdicts, errors = ctx.run_bool_cases("sim", HEADER, terms, chunk=12)
     for e in errors:
         ctx.report("correspondence shard failed to evaluate", {"theorem_or_correspondence": "C12 sim correspondence (Cases)", "coq_output": e}, found_input=False)
@@ -626,7 +681,7 @@ def snap_case_bad(case, counters):
 
         def g(sm):
             v = f(sm)
-            rec.setdefault(pid, []).append(np.array(v, copy=True))
+            rec.setdefault(pid, []).append(np.array(flatval(v)))
             return v
         return g
     for it in case["items"]:
@@ -644,14 +699,14 @@ def snap_case_bad(case, counters):
             c = seen.get(it["id"], 0)
             seen[it["id"]] = c + 1
             counters["views"] += 1
-            if not np.array_equal(np.asarray(vals[j]), rec[it["id"]][c]):
+            if not np.array_equal(np.array(flatval(vals[j])), rec[it["id"]][c]):
                 return "value of probe occurrence %d changed after acquisition: returned %s, at acquisition %s" % (
-                    j, np.asarray(vals[j]).tolist(), rec[it["id"]][c].tolist())
+                    j, flatval(vals[j]), rec[it["id"]][c].tolist())
         trunc = epg.simulate(seq[:k + 1], init=sm, asarray=False)
         counters["trunc"] += 1
-        if not np.array_equal(np.asarray(trunc[j]), np.asarray(vals[j])):
+        if flatval(trunc[j]) != flatval(vals[j]):
             return "entry %d of the full run %s differs from the run stopped after that probe %s" % (
-                j, np.asarray(vals[j]).tolist(), np.asarray(trunc[j]).tolist())
+                j, flatval(vals[j]), flatval(trunc[j]))
     return None
 
 
@@ -1078,6 +1133,121 @@ def expand_case_disagrees(case):
     return None
 
 
+# ------------------------------------------------------------------ array-valued durations through modify()
+ADUR = [0.5, 1.0, 2.5, 4.0, 9.0]
+
+
+def gen_adur_case(rng, k=0):
+    n = rng.choice([2, 3, 3, 4])
+    cls = ["mixed", "mixed", "mixed", "positive", "zero"][k % 5]     # every class in every run
+    if cls == "mixed":
+        nz = rng.randint(1, n - 1)
+        D = [0.0] * nz + [float(rng.choice(ADUR)) for _ in range(n - nz)]
+        rng.shuffle(D)
+    elif cls == "positive":
+        D = [float(rng.choice(ADUR)) for _ in range(n)]
+    else:
+        D = [0.0] * n
+    case = {"D": D, "class": cls, "carrier": ["wait", "shift", "E", "P", "T"][(k // 5 + k) % 5],
+            "pulses": [[float(rng.choice([30, 60, 70, 90])), float(rng.choice([0, 90, 30]))],
+                       [float(rng.choice([40, 50, 120, 180])), float(rng.choice([0, 45]))]],
+            "tail": float(rng.choice([0.0, 2.0, 3.5])), "own": [float(rng.choice([500, 1200])), float(rng.choice([35, 90])), float(rng.choice([0, 0.015]))],
+            "params": {}}
+    for name, vals in (("T1", [600.0, 800.0, 1400.0]), ("T2", [30.0, 40.0, 80.0]), ("g", [0.01, 0.02, -0.03])):
+        if rng.random() < 0.55:
+            case["params"][name] = rng.choice(vals)
+    if not case["params"]:
+        case["params"][rng.choice(["T2", "g"])] = 0.02
+    if rng.random() < 0.3:
+        case["params"]["att"] = rng.choice([0.5, 0.8, 1.2])
+    return case
+
+
+def adur_sequence(case, d, insert):
+    """the sequence for duration(s) d of the carrier; insert=True: evolutions written out by hand (scalar d only)"""
+    import epgpy as epg
+    P = case["params"]
+    T1, T2, g, att = P.get("T1"), P.get("T2"), P.get("g"), P.get("att")
+    (a1, p1), (a2, p2) = case["pulses"]
+    oT1, oT2, og = case["own"]
+    k = att if (insert and att is not None) else 1.0
+
+    def evo(dd):
+        if not insert or not dd > 0 or (T1 is None and T2 is None and g is None):
+            return []
+        if T1 is None and T2 is None:
+            return [epg.P(dd, g)]
+        return [epg.E(dd, 1e10 if T1 is None else T1, 1e10 if T2 is None else T2, 0 if g is None else g)]
+    c = case["carrier"]
+    if c == "wait":
+        car = [epg.Wait(d)]
+    elif c == "shift":
+        car = [epg.S(1, duration=d)]
+    elif c == "E":
+        car = [epg.E(d, oT1, oT2, og, duration=True)]
+    elif c == "P":
+        car = [epg.P(d, og, duration=True)]
+    else:
+        car = [epg.T(20.0 * k, 10.0, duration=d)]
+    seq = [epg.T(a1 * k, p1)] + car + (evo(d) if insert else []) + [epg.T(a2 * k, p2)]
+    if c == "shift":
+        seq += [epg.S(-1)]
+    seq += [epg.Wait(case["tail"])] + evo(case["tail"]) + [epg.ADC]
+    return seq
+
+
+def adur_case_disagrees(case):
+    import epgpy as epg
+    D = np.array(case["D"])
+    n = len(D)
+    seq = adur_sequence(case, D, False)
+    res = epg.modify(seq, **case["params"])
+    t_mod, (f_mod, z_mod) = epg.simulate(res, probe=["F0", "Z0"], adc_time=True)
+    t_adc = epg.get_adc_times(res)
+    for i, d in enumerate(case["D"]):
+        hand = adur_sequence(case, d, True)
+        t_ref, (f_ref, z_ref) = epg.simulate(hand, probe=["F0", "Z0"], adc_time=True)
+        t_ref = float(np.ravel(t_ref)[0])
+        for name, got in (("simulate(modify(seq), adc_time=True)", np.broadcast_to(np.asarray(t_mod, dtype=float).reshape(-1), (n,))[i] if np.size(t_mod) == n
+                           else float(np.ravel(t_mod)[0])),
+                          ("get_adc_times(modify(seq))", np.broadcast_to(np.asarray(t_adc[0], dtype=float), (n,))[i])):
+            if float(got) != t_ref:
+                return "%s for batch entry %d (duration %s) is %s, the scalar sequence gives %s" % (name, i, d, got, t_ref)
+        for name, got, ref in (("F0", f_mod, f_ref), ("Z0", z_mod, z_ref)):
+            g_i = complex(np.broadcast_to(np.asarray(got).reshape(-1), (n,))[i]) if np.size(got) in (1, n) else None
+            ref = complex(np.ravel(ref)[0])
+            if g_i is None:
+                return "simulate(modify(seq)) has %d values for %d durations" % (np.size(got), n)
+            if not abs(g_i - ref) <= 1e-12 * (1 + abs(ref)):
+                return ("%s of batch entry %d (duration %s of %s) of simulate(modify(seq)) is %s; the scalar sequence with the evolution "
+                        "inserted by hand gives %s" % (name, i, d, case["D"], g_i, ref))
+    return None
+
+
+def run_adur_stream(ctx, n):
+    """modify() on a timed operator whose duration is an array (zeros and positive entries): every batch entry against
+    its own scalar run with explicitly inserted evolutions"""
+    stats = {"cases": 0, "classes": {}, "carriers": {}}
+    reported = set()
+    for i in range(n):
+        case = gen_adur_case(ctx.rng, i)
+        try:
+            why = adur_case_disagrees(case)
+        except Exception as e:
+            why = "modify()/simulate raised %s with an array-valued duration: %s" % (type(e).__name__, str(e)[:200])
+        stats["cases"] += 1
+        stats["classes"][case["class"]] = stats["classes"].get(case["class"], 0) + 1
+        stats["carriers"][case["carrier"]] = stats["carriers"].get(case["carrier"], 0) + 1
+        ctx.count(("adur", repr(case)), nontrivial=case["class"] != "zero")
+        if why:
+            sig = {"stream": "array_duration", "class": case["class"], "carrier": case["carrier"], "why": why[:20]}
+            if len(reported) >= 4 or repr(sig) in reported:
+                continue
+            reported.add(repr(sig))
+            ctx.report(why, {"adur_case": case}, found_input=True, signature=sig)
+    ctx.cov["array_duration_stream"] = stats
+
+
 # ------------------------------------------------------------------ phasor stream (Interval inside Coq)
 PHEADER = """From Coq Require Import Reals.
 From Interval Require Import Tactic.
@@ -1188,6 +1358,7 @@ def run(ctx):
     run_sim_stream(ctx, 150 if quick else 2500)
     run_snap_stream(ctx, 40 if quick else 600)
     run_mod_stream(ctx, 100 if quick else 1500)
+    run_adur_stream(ctx, 25 if quick else 400)
     run_phasor_stream(ctx, 12 if quick else 120)
     run_grouping_probes(ctx)
     ctx.cov["trusted_base"] += [
@@ -1219,6 +1390,8 @@ def fix_case(case):
         if isinstance(p, dict) and "q" in p:
             if isinstance(p["q"], list):
                 p["q"] = tuple(p["q"])
+                if p["q"][0] == "tuple":
+                    p["q"] = ("tuple", [tuple(c) if isinstance(c, list) else c for c in p["q"][1]], p["q"][2])
             if isinstance(p.get("reduce"), list):
                 p["reduce"] = tuple(p["reduce"])
     for it in case.get("items", []):
@@ -1240,6 +1413,11 @@ def replay(ctx, rp):
         why = oracle_disagrees(case, obs)
     elif "snap_case" in rp:
         why = snap_case_bad(fix_case(rp["snap_case"]), {"views": 0, "trunc": 0})
+    elif "adur_case" in rp:
+        try:
+            why = adur_case_disagrees(rp["adur_case"])
+        except Exception as e:
+            why = "modify()/simulate raised %s: %s" % (type(e).__name__, e)
     elif "expand_case" in rp:
         try:
             why = expand_case_disagrees(rp["expand_case"])
